@@ -153,9 +153,25 @@ func Drive(o DriveOpts) int {
 	harnessFault := false
 	raceSigs := map[string]int{}
 	for _, b := range races {
-		if len(b.godiFns[0]) == 0 && len(b.godiFns[1]) == 0 {
+		// a race is godi's when at least one of the two conflicting accesses happens in godi code
+		// (innermost frame); two accesses in harness/user code reached through godi are a
+		// harness fault (the monitor's own state must be race-free)
+		inner := func(fns []string) bool {
+			for _, fn := range fns { // innermost first; skip standard-library frames (runtime.mapassign, sync/atomic, reflect …)
+				seg := fn
+				if i := strings.Index(seg, "/"); i >= 0 {
+					seg = seg[:i]
+				}
+				if !strings.Contains(seg, ".") || strings.HasPrefix(fn, "runtime.") || strings.HasPrefix(fn, "sync.") || strings.HasPrefix(fn, "reflect.") {
+					continue
+				}
+				return isGodiFn(fn)
+			}
+			return false
+		}
+		if !inner(b.allFns[0]) && !inner(b.allFns[1]) {
 			harnessFault = true
-			fmt.Println("HARNESS-RACE (both stacks outside godi):")
+			fmt.Println("HARNESS-RACE (both conflicting accesses are outside godi):")
 			fmt.Println(b.text)
 			continue
 		}
@@ -189,6 +205,11 @@ func Drive(o DriveOpts) int {
 	newViol := 0
 	knownSeen := 0
 	replayDir := filepath.Join(o.VerifDir, "replays")
+	if stale, _ := filepath.Glob(filepath.Join(replayDir, fmt.Sprintf("%s-%d-*.json", o.Prop, o.Seed))); len(stale) > 0 {
+		for _, f := range stale {
+			_ = os.Remove(f)
+		}
+	}
 	for _, sig := range order {
 		g := bySig[sig]
 		if what, ok := kf.Match(o.Prop, sig); ok {
@@ -363,6 +384,15 @@ func runShard(o DriveOpts, p *Property, bin, work string, shard, n, timeoutS int
 			res.inconcl = append(res.inconcl, fmt.Sprintf("shard %d: watchdog (%ds) fired in case %d; goroutine dump tail: %s", shard, timeoutS, lastBegun, trimTo(tail, 1500)))
 			return res
 		}
+		if lastEnded == -2 {
+			// the worker abandoned the case on purpose (its verdict is already in the stream)
+			from = lastBegun + 1
+			if attempt >= o.MaxRestart {
+				res.exitNotes = append(res.exitNotes, fmt.Sprintf("shard %d: restart limit reached", shard))
+				return res
+			}
+			continue
+		}
 		res.crashes++
 		kind := classifyCrash(tail)
 		if lastBegun >= 0 && lastBegun != lastEnded {
@@ -407,6 +437,12 @@ func mergeSummary(dst, src *Summary, hashset map[string]struct{}) {
 
 func readStream(path string) (sums []*Summary, done bool, viols []Violation, inc, notes []string, lastBegun, lastEnded int) {
 	lastBegun, lastEnded = -1, -1
+	abandoned := -1
+	defer func() {
+		if abandoned >= 0 && abandoned == lastBegun {
+			lastEnded = -2 // sentinel: the begun case was abandoned deliberately (worker exited on purpose)
+		}
+	}()
 	f, err := os.Open(path)
 	if err != nil {
 		return
@@ -422,6 +458,8 @@ func readStream(path string) (sums []*Summary, done bool, viols []Violation, inc
 		switch r.K {
 		case "B":
 			lastBegun = r.I
+		case "A":
+			abandoned = r.I
 		case "E":
 			lastEnded = r.I
 		case "V":
